@@ -597,9 +597,21 @@ def run_inner(ctx):
     acc.report(ctx)
 
 
+def replay_input(rec):
+    """the recorded input; for a `no-failing-input-found` record the first disagreeing input (None when there is none)"""
+    if 'input' in rec:
+        return rec['input']
+    if rec.get('kind') == 'no-failing-input-found':
+        ds = rec.get('disagreements') or []
+        return ds[0]['input'] if ds else None
+    return rec
+
+
 def replay(ctx, rec):
     """re-run a recorded input on the implementation against the specification (property oracle only)"""
-    inp = rec.get('input', rec)
+    inp = replay_input(rec)
+    if inp is None:
+        return True
     before = len(ctx.violations)
     if inp.get('exact'):
         return replay_exact(ctx, inp)
